@@ -217,7 +217,7 @@ Proof. intros c c' es d p H1 H2. unfold enc_ready. rewrite H1, H2. tauto. Qed.
 Lemma enc_step : forall O c0 es encdata payload l,
   is_uni es = true -> enc_ready c0 es encdata payload -> o_enc O payload = EUnblocked l ->
   exists c1, receive_stream_data0 fx O c0 es encdata false = unblock fx O c1 l [] /\
-    c_client c1 = c_client c0 /\ c_done c1 = c_done c0 /\
+    c_client c1 = c_client c0 /\ c_done c1 = c_done c0 /\ c_sent_end c1 = c_sent_end c0 /\
     (forall x, x <> es -> find_stream x (c_streams c1) = find_stream x (c_streams c0)) /\
     (exists se', find_stream es (c_streams c1) = Some se' /\ s_ended se' = false).
 Proof.
@@ -285,7 +285,7 @@ Proof.
   (* ---- encoder stream first *)
   assert (HA : run fx c0 [(QStream es encdata false, OA); (QStream sid data fin, O2)] = [Events []; to_hout R]).
   { cbn [run]. rewrite he_stream by assumption. unfold receive_stream_data.
-    destruct (enc_step OA c0 es encdata encpayload [] Hue Henc HoA) as (c1 & E1 & C1 & D1 & F1 & (se' & G1 & G2)).
+    destruct (enc_step OA c0 es encdata encpayload [] Hue Henc HoA) as (c1 & E1 & C1 & D1 & SE1 & F1 & (se' & G1 & G2)).
     rewrite E1. cbn [unblock].
     rewrite (pop_not_ended c1 es se' G1 (is_ended_open _ _ G2)).
     rewrite he_stream by congruence. unfold receive_stream_data.
@@ -318,7 +318,7 @@ Proof.
       subst cB. transitivity (find_stream es (c_streams cg)).
       - cbn [c_streams set_streams]. apply find_put_other. lia.
       - subst cg. apply goc_find_other. lia. }
-    destruct (enc_step O2 cB es encdata encpayload [sid] Hue HencB Ho2) as (c1 & E1 & C1 & D1 & F1 & (se' & G1 & G2)).
+    destruct (enc_step O2 cB es encdata encpayload [sid] Hue HencB Ho2) as (c1 & E1 & C1 & D1 & SE1 & F1 & (se' & G1 & G2)).
     rewrite E1.
     assert (CC : c_client c1 = true) by (rewrite C1; subst cB; cbn [c_client set_streams]; congruence).
     assert (FF : find_stream (s_id s0) (c_streams c1) = Some sB) by (rewrite Hid, F1 by assumption; assumption).
